@@ -610,6 +610,13 @@ func main() {
 		}
 		k.subsets(a.Cfg)
 		k.transactions(a.Cfg, txs, spenders)
+		if a.Step == "reload" {
+			k.pend = nil
+			k.reloads(txs)
+			k.flush()
+			os.RemoveAll(scr)
+			r.Finish(evid.Coverage{})
+		}
 		if a.Step == "big-index" {
 			k.pend = nil
 			k.bigIndexes()
@@ -700,6 +707,7 @@ func main() {
 	k.txTypes(txs)
 	sideCells, sideMust, sideMatched, sideTab := k.sideTable()
 	bigIdx := k.bigIndexes()
+	nReload := k.reloads(txs)
 	k.flush()
 	k.nCases += int64(k.cases.Len())
 
@@ -723,7 +731,7 @@ func main() {
 	r.Finish(evid.Coverage{
 		"evaluations":                k.evals + nMurmur,
 		"distinct_nontrivial":        k.nCases,
-		"rule":                       fmt.Sprintf("%d filter configurations: bloom.NewFilter over elements {0,1,2,10,1000} x fprate {1e-9,0.01,0.5,1} x tweak {0,1,2^32-1}; filterload payload bytes with size {0,1,36000,36001} x hashFuncs {0,1,50,51} x tweak {0,1,2^32-1} and flags {0,1,2,255}, pushed through msg.FilterLoad.Deserialize and the server's filter.Filter.Load/TxFilterLoad/bloom.TxFilter.Load. Per loadable configuration: every subset of the 8-item menu [%s] added through Filter.Add and through the filteradd path, every item then queried (Matches/MatchesOutPoint), node-built bits read by the reference and reference-built bits loaded into the node; %d transfers x watched item {txid, output0, output1, spent outpoint} through MatchTxAndUpdate/MatchConfirmed/MatchUnconfirmed, then the created outpoint and the transaction spending it. Operation sequences on one filter object: every sequence up to length 4 over {query x, add x} for each item and over {query x, add x, query y, add y} for three pairs; query-all / add-subset / query-all for every subset (also after 300 other queries); every sequence up to length 4 over {watch address, watch outpoint, present parent, present spender} via MatchTxAndUpdate, MatchConfirmed and MatchUnconfirmed — whatever was added earlier in the sequence must match. Side-chain mode table: bit array {64/7, 36000/50, 1/1, 0/0, 0/3} x transaction {transfer, record, coinbase} x TxTypes {none, own, other, own+other, other+unused} x watched {none, output0, output1, unpaid address, output1+unpaid} via MatchConfirmed and MatchUnconfirmed: must match iff the type is listed or (bit array non-empty and an output pays a watched address). Output indexes {0,1,255,256,257,511,512,65535}: outpoint (tx,k) added directly or created by the update after a payment to the watched address of output k of a 513-output transaction, then the spender of (tx,k) via all three entry points on 4 filters. MurmurHash3 against the reference for 49 inputs x 51 hash numbers x 6 tweaks plus 13 published vectors. distinct_nontrivial = distinct (configuration, subset, item) and (configuration, tx, watched) queries answered without a refusal to load", len(cfgs), strings.Join(names, ", "), len(txs)),
+		"rule":                       fmt.Sprintf("%d filter configurations: bloom.NewFilter over elements {0,1,2,10,1000} x fprate {1e-9,0.01,0.5,1} x tweak {0,1,2^32-1}; filterload payload bytes with size {0,1,36000,36001} x hashFuncs {0,1,50,51} x tweak {0,1,2^32-1} and flags {0,1,2,255}, pushed through msg.FilterLoad.Deserialize and the server's filter.Filter.Load/TxFilterLoad/bloom.TxFilter.Load. Per loadable configuration: every subset of the 8-item menu [%s] added through Filter.Add and through the filteradd path, every item then queried (Matches/MatchesOutPoint), node-built bits read by the reference and reference-built bits loaded into the node; %d transfers x watched item {txid, output0, output1, spent outpoint} through MatchTxAndUpdate/MatchConfirmed/MatchUnconfirmed, then the created outpoint and the transaction spending it. Operation sequences on one filter object: every sequence up to length 4 over {query x, add x} for each item and over {query x, add x, query y, add y} for three pairs; query-all / add-subset / query-all for every subset (also after 300 other queries); every sequence up to length 4 over {watch address, watch outpoint, present parent, present spender} via MatchTxAndUpdate, MatchConfirmed and MatchUnconfirmed — whatever was added earlier in the sequence must match. Side-chain mode table: bit array {64/7, 36000/50, 1/1, 0/0, 0/3} x transaction {transfer, record, coinbase} x TxTypes {none, own, other, own+other, other+unused} x watched {none, output0, output1, unpaid address, output1+unpaid} via MatchConfirmed and MatchUnconfirmed: must match iff the type is listed or (bit array non-empty and an output pays a watched address). Output indexes {0,1,255,256,257,511,512,65535}: outpoint (tx,k) added directly or created by the update after a payment to the watched address of output k of a 513-output transaction, then the spender of (tx,k) via all three entry points on 4 filters. Filter replacement: every sequence of 2 and 3 loads with bit arrays of {1,8,64,512} bytes through Filter.Reload (after LoadFilter, NewFilter, Unload), bloom.TxFilter.Load on one TxFilter and filter.Filter.Load: every element the client put into the last loaded filter and everything added with filteradd afterwards must match; a panic is a violation. MurmurHash3 against the reference for 49 inputs x 51 hash numbers x 6 tweaks plus 13 published vectors. distinct_nontrivial = distinct (configuration, subset, item) and (configuration, tx, watched) queries answered without a refusal to load", len(cfgs), strings.Join(names, ", "), len(txs)),
 		"exhaustive":                 true,
 		"configurations":             len(cfgs),
 		"loadable":                   loadable,
@@ -736,6 +744,7 @@ func main() {
 		"side_mode_cells_matched":    sideMatched,
 		"side_mode_table_size":       len(sideTab),
 		"big_index_cases":            bigIdx,
+		"filter_replacement_cases":   nReload,
 		"samples":                    samples,
 	})
 }
